@@ -38,42 +38,47 @@ Section Builders.
 Variables (length width : nat).
 
 (* if moves[i][j] != 3: [Green, Yellow];  if moves[i][j] == 3: [Green] *)
-Definition player_two_transitions (moves : nat -> nat -> nat) (offset_r offset_y : nat)
-  : list (list tr) :=
-  grid length width (fun i j =>
+Definition player_two_cell (moves : nat -> nat -> nat) (offset_r offset_y : nat)
+           (i j : nat) : list tr :=
     if negb (moves i j =? 3)
     then [pl "Green"%string (offset_r + i * width + j); pl "Yellow"%string (offset_y + i * width + j)]
-    else [pl "Green"%string (offset_r + i * width + j)]).
+    else [pl "Green"%string (offset_r + i * width + j)].
+Definition player_two_transitions (moves : nat -> nat -> nat) (offset_r offset_y : nat)
+  : list (list tr) :=
+  grid length width (player_two_cell moves offset_r offset_y).
 
 (* [winning_state=None] by default; [not winning_state] is also true for 0 *)
 Definition not_ws (winning_state : option nat) : bool :=
   match winning_state with None => true | Some w => w =? 0 end.
-Definition player_one_down_transitions (offset : nat) (winning_state : option nat)
-  : list (list tr) :=
-  grid length width (fun i j =>
+Definition player_one_down_cell (offset : nat) (winning_state : option nat)
+           (i j : nat) : list tr :=
     if not_ws winning_state then [pl "Down"%string (offset + i * width + j)]
     else if i <? length - 1 then [pl "Down"%string (offset + i * width + j + width)]
-    else [pl "Down"%string (match winning_state with Some w => w | None => 0 end)]).
+    else [pl "Down"%string (match winning_state with Some w => w | None => 0 end)].
+Definition player_one_down_transitions (offset : nat) (winning_state : option nat)
+  : list (list tr) :=
+  grid length width (player_one_down_cell offset winning_state).
 
 (* the four cases on the arrow code; codes above 3 are outside the domain (see the header) *)
 Definition by_move {A} (m : nat) (c0 c1 c2 c3 : A) (other : A) : A :=
   match m with 0 => c0 | 1 => c1 | 2 => c2 | 3 => c3 | _ => other end.
 
-Definition player_one_left_right_transitions (moves : nat -> nat -> nat) (offset_l offset_r : nat)
-  : list (list tr) :=
-  grid length width (fun i j =>
+Definition player_one_left_right_cell (moves : nat -> nat -> nat) (offset_l offset_r : nat)
+           (i j : nat) : list tr :=
     let transition :=
       if negb (offset_l =? offset_r)
       then (pl "Left"%string (offset_l + i * width + j), pl "Right"%string (offset_r + i * width + j))
       else (pl "Left"%string (offset_l + i * width + py_pred_mod j width),
             pl "Right"%string (offset_r + i * width + (j + 1) mod width)) in
     by_move (moves i j) [fst transition] [fst transition; snd transition] [snd transition]
-            [pl "Etha"%string 0] []).
+            [pl "Etha"%string 0] [].
+Definition player_one_left_right_transitions (moves : nat -> nat -> nat) (offset_l offset_r : nat)
+  : list (list tr) :=
+  grid length width (player_one_left_right_cell moves offset_l offset_r).
 
 (* the pinned tree's case order (defect D3, repaired by 7de53ea): kept for the refutation *)
-Definition player_one_left_right_transitions_orig (moves : nat -> nat -> nat) (offset_l offset_r : nat)
-  : list (list tr) :=
-  grid length width (fun i j =>
+Definition player_one_left_right_cell_orig (moves : nat -> nat -> nat) (offset_l offset_r : nat)
+           (i j : nat) : list tr :=
     let transition :=
       if negb (offset_l =? offset_r)
       then (pl "Left"%string (offset_l + i * width + j), pl "Right"%string (offset_r + i * width + j))
@@ -83,53 +88,68 @@ Definition player_one_left_right_transitions_orig (moves : nat -> nat -> nat) (o
       then (pl "Left"%string (offset_l + i * width + j - 1), pl "Right"%string (offset_r + i * width))
       else (pl "Left"%string (offset_l + i * width + j - 1), pl "Right"%string (offset_r + i * width + j + 1)) in
     by_move (moves i j) [fst transition] [fst transition; snd transition] [snd transition]
-            [pl "Etha"%string 0] []).
+            [pl "Etha"%string 0] [].
+Definition player_one_left_right_transitions_orig (moves : nat -> nat -> nat) (offset_l offset_r : nat)
+  : list (list tr) :=
+  grid length width (player_one_left_right_cell_orig moves offset_l offset_r).
 
-Definition prob_tile_break_transitions (prob_tile_break : T) (loose_tiles : nat -> nat -> nat)
-           (offset loosing_state : nat) : list (list tr) :=
-  grid length width (fun i j =>
+Definition prob_tile_break_cell (prob_tile_break : T) (loose_tiles : nat -> nat -> nat) (offset loosing_state : nat)
+           (i j : nat) : list tr :=
     if loose_tiles i j =? 1
     then [pb prob_tile_break loosing_state;
           pb (sub K (one K) prob_tile_break) (offset + i * width + j)]
-    else [pb (one K) (offset + i * width + j)]).
-
-Definition prob_robot_down_break_transitions (prob_robot_break : T) (offset winning_state : nat)
+    else [pb (one K) (offset + i * width + j)].
+Definition prob_tile_break_transitions (prob_tile_break : T) (loose_tiles : nat -> nat -> nat) (offset loosing_state : nat)
   : list (list tr) :=
-  grid length width (fun i j =>
+  grid length width (prob_tile_break_cell prob_tile_break loose_tiles offset loosing_state).
+
+Definition prob_robot_down_break_cell (prob_robot_break : T) (offset winning_state : nat)
+           (i j : nat) : list tr :=
     [pb prob_robot_break (offset + i * width + j);
      if i <? length - 1
      then pb (sub K (one K) prob_robot_break) (offset + i * width + j + width)
-     else pb (sub K (one K) prob_robot_break) winning_state]).
-
-Definition prob_robot_left_break_transitions (prob_robot_break : T) (offset : nat)
+     else pb (sub K (one K) prob_robot_break) winning_state].
+Definition prob_robot_down_break_transitions (prob_robot_break : T) (offset winning_state : nat)
   : list (list tr) :=
-  grid length width (fun i j =>
+  grid length width (prob_robot_down_break_cell prob_robot_break offset winning_state).
+
+Definition prob_robot_left_break_cell (prob_robot_break : T) (offset : nat)
+           (i j : nat) : list tr :=
     [pb prob_robot_break (offset + i * width + j);
      if j =? 0
      then pb (sub K (one K) prob_robot_break) (offset + i * width + width - 1)
-     else pb (sub K (one K) prob_robot_break) (offset + i * width + j - 1)]).
-
-Definition prob_robot_right_break_transitions (prob_robot_break : T) (offset : nat)
+     else pb (sub K (one K) prob_robot_break) (offset + i * width + j - 1)].
+Definition prob_robot_left_break_transitions (prob_robot_break : T) (offset : nat)
   : list (list tr) :=
-  grid length width (fun i j =>
+  grid length width (prob_robot_left_break_cell prob_robot_break offset).
+
+Definition prob_robot_right_break_cell (prob_robot_break : T) (offset : nat)
+           (i j : nat) : list tr :=
     [pb prob_robot_break (offset + i * width + j);
      if j =? width - 1
      then pb (sub K (one K) prob_robot_break) (offset + i * width)
-     else pb (sub K (one K) prob_robot_break) (offset + i * width + j + 1)]).
+     else pb (sub K (one K) prob_robot_break) (offset + i * width + j + 1)].
+Definition prob_robot_right_break_transitions (prob_robot_break : T) (offset : nat)
+  : list (list tr) :=
+  grid length width (prob_robot_right_break_cell prob_robot_break offset).
 
-Definition player_one_down_left_right_transitions (moves : nat -> nat -> nat)
-           (offset_d offset_l offset_r : nat) : list (list tr) :=
-  grid length width (fun i j =>
+Definition player_one_down_left_right_cell (moves : nat -> nat -> nat) (offset_d offset_l offset_r : nat)
+           (i j : nat) : list tr :=
     let t0 := pl "Down"%string (offset_d + i * width + j) in
     let t1 := pl "Left"%string (offset_l + i * width + j) in
     let t2 := pl "Right"%string (offset_r + i * width + j) in
-    by_move (moves i j) [t0; t1] [t0; t1; t2] [t0; t2] [t0] []).
+    by_move (moves i j) [t0; t1] [t0; t1; t2] [t0; t2] [t0] [].
+Definition player_one_down_left_right_transitions (moves : nat -> nat -> nat) (offset_d offset_l offset_r : nat)
+  : list (list tr) :=
+  grid length width (player_one_down_left_right_cell moves offset_d offset_l offset_r).
 
+Definition prob_light_break_cell (prob_light_break : T) (offset_ok offset_break : nat)
+           (i j : nat) : list tr :=
+    [pb prob_light_break (offset_break + i * width + j);
+     pb (sub K (one K) prob_light_break) (offset_ok + i * width + j)].
 Definition prob_light_break_transitions (prob_light_break : T) (offset_ok offset_break : nat)
   : list (list tr) :=
-  grid length width (fun i j =>
-    [pb prob_light_break (offset_break + i * width + j);
-     pb (sub K (one K) prob_light_break) (offset_ok + i * width + j)]).
+  grid length width (prob_light_break_cell prob_light_break offset_ok offset_break).
 
 (* my_rewards, my_players of the three writers ([total] groups, of which [n_robot_groups]
    belong to Player 1 and [n_prob_groups] are probabilistic) *)
